@@ -643,4 +643,841 @@ theorem query_coherent (k : Kind) (iw : List Nat) (ss : Streams) (st : ObjState)
     · exact queryRgb_coherent k iw ss st h
     · exact queryShape_coherent k iw ss _ st h
 
+/-! ### deepening round D: helpers -/
+
+theorem dropWhile_head_false {α} (p : α → Bool) (l : List α) (y : α) (ys : List α)
+    (h : l.dropWhile p = y :: ys) : p y = false := by
+  induction l with
+  | nil => simp at h
+  | cons a l ih =>
+    rw [List.dropWhile_cons] at h
+    by_cases hp : p a = true
+    · rw [if_pos hp] at h; exact ih h
+    · rw [if_neg hp] at h; cases h; simpa using hp
+
+theorem mem_takeWhile_true {α} (p : α → Bool) (l : List α) (x : α)
+    (h : x ∈ l.takeWhile p) : p x = true := by
+  induction l with
+  | nil => simp at h
+  | cons a l ih =>
+    rw [List.takeWhile_cons] at h
+    by_cases hp : p a = true
+    · rw [if_pos hp] at h
+      rcases List.mem_cons.mp h with rfl | h
+      · exact hp
+      · exact ih h
+    · rw [if_neg hp] at h; simp at h
+
+theorem uptoLast_split (s : List Sample) :
+    ∃ tail, s = uptoLastBoundary s ++ tail ∧ (∀ x ∈ tail, x.2 ≠ 2) ∧
+      (uptoLastBoundary s = [] ∨ ∃ init d, uptoLastBoundary s = init ++ [(d, 2)]) := by
+  refine ⟨(s.reverse.takeWhile fun x => x.2 != 2).reverse, ?_, ?_, ?_⟩
+  · unfold uptoLastBoundary
+    rw [← List.reverse_append, List.takeWhile_append_dropWhile, List.reverse_reverse]
+  · intro x hx
+    have := mem_takeWhile_true _ _ _ (List.mem_reverse.mp hx)
+    simpa using this
+  · unfold uptoLastBoundary
+    cases h : s.reverse.dropWhile (fun x => x.2 != 2) with
+    | nil => left; rfl
+    | cons y ys =>
+      right
+      have hy := dropWhile_head_false _ _ _ _ h
+      refine ⟨ys.reverse, y.1, ?_⟩
+      have : y.2 = 2 := by simpa using hy
+      rw [List.reverse_cons, ← this]
+
+theorem zip_take_min (chan : List Int) (iw : List Nat) :
+    (chan.take (min chan.length iw.length)).zip (iw.take (min chan.length iw.length)) = chan.zip iw := by
+  induction chan generalizing iw with
+  | nil => simp
+  | cons c cs ih =>
+    cases iw with
+    | nil => simp
+    | cons i is =>
+      simp only [List.length_cons, Nat.succ_min_succ, List.take_succ_cons, List.zip_cons_cons]
+      rw [ih]
+
+theorem map_snd_zip_min (chan : List Int) (iw : List Nat) :
+    (chan.zip iw).map (·.2) = iw.take (min chan.length iw.length) := by
+  induction chan generalizing iw with
+  | nil => simp
+  | cons c cs ih =>
+    cases iw with
+    | nil => simp
+    | cons i is =>
+      simp only [List.length_cons, Nat.succ_min_succ, List.take_succ_cons, List.zip_cons_cons, List.map_cons]
+      rw [ih]
+
+
+/-! ### settled objects: answers do not depend on the history of queries -/
+
+/-- No colour's photon stream starts inside the object's current window (nothing to repair). -/
+def Settled (k : Kind) (iw : List Nat) (ss : Streams) (st : ObjState) : Prop :=
+  Coherent k iw ss st ∧ ∀ c, startsLate iw.length st.off (streamOf ss c) = false
+
+theorem photonAccess_not_late (k : Kind) (iw : List Nat) (s : Stream) (st : ObjState)
+    (h : startsLate iw.length st.off s = false) : photonAccess k iw s st = .ok st := by
+  unfold photonAccess
+  rw [h]; rfl
+
+theorem queryColour_settled (k : Kind) (iw : List Nat) (ss : Streams) (c : Nat) (st : ObjState)
+    (h : Settled k iw ss st) :
+    (queryColour k iw (streamOf ss c) c st).2 = freshImage k iw (streamOf ss c) st.off ∧
+    (queryColour k iw (streamOf ss c) c st).1.off = st.off ∧
+    Settled k iw ss (queryColour k iw (streamOf ss c) c st).1 := by
+  have hcoh := (queryColour_current k iw ss c st h.1).1
+  have key : (queryColour k iw (streamOf ss c) c st).2 = freshImage k iw (streamOf ss c) st.off ∧
+      (queryColour k iw (streamOf ss c) c st).1.off = st.off := by
+    unfold queryColour
+    split
+    · next im hl => exact ⟨(h.1 c im hl).symm, rfl⟩
+    · rw [photonAccess_not_late k iw _ st (h.2 c)]
+      simp only
+      split
+      · next e he => exact ⟨he.symm, rfl⟩
+      · next im he => exact ⟨he.symm, by split <;> rfl⟩
+  refine ⟨key.1, key.2, hcoh, ?_⟩
+  intro c'
+  rw [key.2]
+  exact h.2 c'
+
+theorem queryRgb_settled (k : Kind) (iw : List Nat) (ss : Streams) (st : ObjState)
+    (h : Settled k iw ss st) :
+    (queryRgb k iw ss st).2 = pureRgb (freshImage k iw (streamOf ss 0) st.off)
+      (freshImage k iw (streamOf ss 1) st.off) (freshImage k iw (streamOf ss 2) st.off) ∧
+    (queryRgb k iw ss st).1.off = st.off ∧ Settled k iw ss (queryRgb k iw ss st).1 := by
+  unfold queryRgb
+  obtain ⟨a0, o0, s0⟩ := queryColour_settled k iw ss 0 st h
+  split
+  · next st1 e he =>
+    rw [he] at a0 o0 s0
+    simp only at a0 o0 s0
+    rw [← a0]
+    exact ⟨rfl, o0, s0⟩
+  · next st1 r he =>
+    rw [he] at a0 o0 s0
+    simp only at a0 o0 s0
+    obtain ⟨a1, o1, s1⟩ := queryColour_settled k iw ss 1 st1 s0
+    rw [o0] at a1
+    split
+    · next st2 e he =>
+      rw [he] at a1 o1 s1
+      simp only at a1 o1 s1
+      rw [← a0, ← a1]
+      exact ⟨rfl, (by show st2.off = st.off; omega), s1⟩
+    · next st2 g he =>
+      rw [he] at a1 o1 s1
+      simp only at a1 o1 s1
+      obtain ⟨a2, o2, s2⟩ := queryColour_settled k iw ss 2 st2 s1
+      rw [o1, o0] at a2
+      split
+      · next st3 e he =>
+        rw [he] at a2 o2 s2
+        simp only at a2 o2 s2
+        rw [← a0, ← a1, ← a2]
+        exact ⟨rfl, (by show st3.off = st.off; omega), s2⟩
+      · next st3 b he =>
+        rw [he] at a2 o2 s2
+        simp only at a2 o2 s2
+        rw [← a0, ← a1, ← a2]
+        exact ⟨rfl, (by show st3.off = st.off; omega), s2⟩
+
+theorem queryShape_settled (k : Kind) (iw : List Nat) (ss : Streams) (cs : List Nat) (st : ObjState)
+    (h : Settled k iw ss st) :
+    (queryShape k iw ss cs st).2 = pureShape (fun c => freshImage k iw (streamOf ss c) st.off) cs ∧
+    (queryShape k iw ss cs st).1.off = st.off ∧ Settled k iw ss (queryShape k iw ss cs st).1 := by
+  induction cs generalizing st with
+  | nil => exact ⟨rfl, rfl, h⟩
+  | cons c cs ih =>
+    unfold queryShape pureShape
+    obtain ⟨a0, o0, s0⟩ := queryColour_settled k iw ss c st h
+    split
+    · next st1 e he =>
+      rw [he] at a0 o0 s0
+      simp only at a0 o0 s0
+      rw [← a0]
+      exact ⟨rfl, o0, s0⟩
+    · next st1 im he =>
+      rw [he] at a0 o0 s0
+      simp only at a0 o0 s0
+      rw [← a0]
+      simp only
+      by_cases hc : im.flat.length ≠ 0 ∨ cs.isEmpty
+      · rw [if_pos hc, if_pos hc]; exact ⟨rfl, o0, s0⟩
+      · rw [if_neg hc, if_neg hc]
+        obtain ⟨a, o, s⟩ := ih st1 s0
+        rw [o0] at a
+        exact ⟨a, by omega, s⟩
+
+theorem query_settled (k : Kind) (iw : List Nat) (ss : Streams) (st : ObjState) (q : Nat)
+    (h : Settled k iw ss st) :
+    (query k iw ss st q).2 = pureAnswer k iw ss st.off q ∧
+    (query k iw ss st q).1.off = st.off ∧ Settled k iw ss (query k iw ss st q).1 := by
+  unfold query pureAnswer
+  by_cases h3 : q < 3
+  · simp only [if_pos h3]
+    obtain ⟨a, o, s⟩ := queryColour_settled k iw ss q st h
+    refine ⟨?_, o, s⟩
+    rw [a]; rfl
+  · simp only [if_neg h3]
+    by_cases h4 : q = 3
+    · simp only [if_pos h4]
+      obtain ⟨a, o, s⟩ := queryRgb_settled k iw ss st h
+      refine ⟨?_, o, s⟩
+      rw [a]; rfl
+    · simp only [if_neg h4]
+      obtain ⟨a, o, s⟩ := queryShape_settled k iw ss [0, 1, 2] st h
+      refine ⟨?_, o, s⟩
+      rw [a]
+
+theorem runSeq_settled (k : Kind) (iw : List Nat) (ss : Streams) (qs : List Nat) (st : ObjState)
+    (h : Settled k iw ss st) :
+    runSeq k iw ss st qs = qs.map (pureAnswer k iw ss st.off) ∧
+    (stateAfter k iw ss st qs).off = st.off := by
+  induction qs generalizing st with
+  | nil => exact ⟨rfl, rfl⟩
+  | cons q qs ih =>
+    obtain ⟨a, o, s⟩ := query_settled k iw ss st q h
+    obtain ⟨ih1, ih2⟩ := ih _ s
+    simp only [runSeq, stateAfter, List.map_cons]
+    rw [ih1, ih2, a, o]
+    exact ⟨rfl, rfl⟩
+theorem first_query_lemma (k : Kind) (iw : List Nat) (s : Stream) (c : Nat) :
+    (photonCount iw.length s.lead s.data = none ↔ startsLate iw.length 0 s = true) ∧
+    ∀ pc, photonCount iw.length s.lead s.data = some pc →
+      (queryColour k iw s c ObjState.fresh).2 = imageOfPixels k (channelPixels iw pc) ∧
+      (queryColour k iw s c ObjState.fresh).1.off = 0 := by
+  have hsl : (chanSlice iw.length 0 s) =
+      if s.lead ≥ 0 then (0, (s.data.drop s.lead.toNat).take iw.length)
+      else (s.lead.natAbs, s.data.take (iw.length - s.lead.natAbs)) := by
+    unfold chanSlice
+    simp
+  by_cases hl : s.lead ≥ 0
+  · have hnl : startsLate iw.length 0 s = false := by
+      unfold startsLate; rw [hsl, if_pos hl]; simp
+    have hpc : photonCount iw.length s.lead s.data = some ((s.data.drop s.lead.toNat).take iw.length) := by
+      unfold photonCount overlap; rw [if_pos hl]
+    refine ⟨by rw [hpc, hnl]; simp, ?_⟩
+    intro pc hp
+    rw [hpc] at hp; cases hp
+    unfold queryColour
+    simp only [ObjState.fresh, lookupImage, List.find?_nil, Option.map_none]
+    rw [photonAccess_not_late k iw s ⟨0, 0, []⟩ hnl]
+    simp only
+    have hf : freshImage k iw s 0 = imageOfPixels k (channelPixels iw ((s.data.drop s.lead.toNat).take iw.length)) := by
+      unfold freshImage channelPixelsAt
+      rw [hsl, if_pos hl]
+      simp
+    rw [hf]
+    cases imageOfPixels k (channelPixels iw ((s.data.drop s.lead.toNat).take iw.length)) with
+    | err e => exact ⟨rfl, rfl⟩
+    | ok im => exact ⟨rfl, rfl⟩
+  · by_cases he : (s.data.take (iw.length - s.lead.natAbs)).length = 0
+    · have hnl : startsLate iw.length 0 s = false := by
+        unfold startsLate; rw [hsl, if_neg hl]; simp [he]
+      have hpc : photonCount iw.length s.lead s.data = some [] := by
+        unfold photonCount; rw [if_neg hl, if_pos he]
+      refine ⟨by rw [hpc, hnl]; simp, ?_⟩
+      intro pc hp
+      rw [hpc] at hp; cases hp
+      unfold queryColour
+      simp only [ObjState.fresh, lookupImage, List.find?_nil, Option.map_none]
+      rw [photonAccess_not_late k iw s ⟨0, 0, []⟩ hnl]
+      simp only
+      have hf : freshImage k iw s 0 = imageOfPixels k (channelPixels iw []) := by
+        unfold freshImage channelPixelsAt
+        rw [hsl, if_neg hl]
+        have : s.data.take (iw.length - s.lead.natAbs) = [] := List.length_eq_zero_iff.mp he
+        simp [this]
+      rw [hf]
+      cases imageOfPixels k (channelPixels iw []) with
+      | err e => exact ⟨rfl, rfl⟩
+      | ok im => exact ⟨rfl, rfl⟩
+    · have hl' : startsLate iw.length 0 s = true := by
+        unfold startsLate; rw [hsl, if_neg hl]
+        have : s.lead.natAbs ≠ 0 := by omega
+        simp only [Bool.and_eq_true, bne_iff_ne]
+        exact ⟨he, this⟩
+      have hpc : photonCount iw.length s.lead s.data = none := by
+        unfold photonCount; rw [if_neg hl, if_neg he]
+      refine ⟨by rw [hpc, hl']; simp, ?_⟩
+      intro pc hp
+      rw [hpc] at hp; cases hp
+
+theorem queryColour_idempotent (k : Kind) (iw : List Nat) (s : Stream) (c : Nat) (st : ObjState) (im : Image)
+    (h : (queryColour k iw s c st).2 = .ok im) (hg : (queryColour k iw s c st).1.gen = st.gen) :
+    queryColour k iw s c (queryColour k iw s c st).1 = ((queryColour k iw s c st).1, .ok im) := by
+  cases hl : lookupImage c st.cache with
+  | some im' =>
+    have hq : queryColour k iw s c st = (st, .ok im') := by unfold queryColour; rw [hl]
+    rw [hq] at h ⊢
+    cases h
+    exact hq
+  | none =>
+    cases hp : photonAccess k iw s st with
+    | error e =>
+      have hq : queryColour k iw s c st = (st, .err e) := by unfold queryColour; rw [hl, hp]
+      rw [hq] at h; cases h
+    | ok st' =>
+      cases hf : freshImage k iw s st'.off with
+      | err e =>
+        have hq : queryColour k iw s c st = (st', .err e) := by
+          unfold queryColour; rw [hl, hp]; simp only; rw [hf]
+        rw [hq] at h; cases h
+      | ok im' =>
+        have hq : queryColour k iw s c st =
+            (if st'.gen = st.gen then { st' with cache := (c, im') :: st'.cache } else st', .ok im') := by
+          unfold queryColour; rw [hl, hp]; simp only; rw [hf]
+        rw [hq] at h hg ⊢
+        cases h
+        have hgen : st'.gen = st.gen := by
+          by_cases hh : st'.gen = st.gen
+          · exact hh
+          · rw [if_neg hh] at hg; exact absurd hg hh
+        simp only [if_pos hgen]
+        unfold queryColour
+        rw [lookupImage_cons]
+        simp
+
+/-! ### deepening round D: `seek_timestamp_next_line` on regular info waves -/
+
+
+def usedFrom (i : Nat) : List Nat → List (Nat × Nat)
+  | [] => []
+  | c :: cs => if isUsed c then (c, i) :: usedFrom (i + 1) cs else usedFrom (i + 1) cs
+
+theorem usedIdx_eq (iw : List Nat) : usedIdx iw = usedFrom 0 iw := by
+  unfold usedIdx
+  suffices h : ∀ i, (iw.zipIdx i).filter (fun x => isUsed x.1) = usedFrom i iw from h 0
+  induction iw with
+  | nil => intro i; rfl
+  | cons c cs ih =>
+    intro i
+    simp only [List.zipIdx_cons, List.filter_cons, usedFrom]
+    by_cases h : isUsed c = true
+    · simp [h, ih]
+    · simp [h, ih]
+
+theorem usedFrom_append (i : Nat) (a b : List Nat) :
+    usedFrom i (a ++ b) = usedFrom i a ++ usedFrom (i + a.length) b := by
+  induction a generalizing i with
+  | nil => simp [usedFrom]
+  | cons c cs ih =>
+    simp only [List.cons_append, usedFrom, List.length_cons]
+    rw [ih]
+    have : i + 1 + cs.length = i + (cs.length + 1) := by omega
+    by_cases h : isUsed c = true
+    · simp [h, this]
+    · simp [h, this]
+
+theorem usedFrom_zeros (i z : Nat) : usedFrom i (List.replicate z 0) = [] := by
+  induction z generalizing i with
+  | zero => rfl
+  | succ z ih => simp [List.replicate_succ, usedFrom, isUsed, ih]
+
+/-- the used samples of one pixel that starts at sample `i` -/
+def pixelUsed (i k : Nat) : List (Nat × Nat) :=
+  (List.range (k - 1)).map (fun j => (1, i + j)) ++ [(2, i + (k - 1))]
+
+theorem usedFrom_ones (i m : Nat) :
+    usedFrom i (List.replicate m 1) = (List.range m).map (fun j => (1, i + j)) := by
+  induction m generalizing i with
+  | zero => rfl
+  | succ m ih =>
+    rw [List.replicate_succ, usedFrom, List.range_succ_eq_map]
+    simp only [isUsed, ih, List.map_cons, List.map_map]
+    simp
+    intro a _
+    omega
+
+theorem usedFrom_pixel (i k : Nat) : usedFrom i (regPixel k) = pixelUsed i k := by
+  unfold regPixel pixelUsed
+  rw [usedFrom_append, usedFrom_ones]
+  simp [usedFrom, isUsed]
+
+theorem regPixel_length (k : Nat) (hk : 1 ≤ k) : (regPixel k).length = k := by
+  unfold regPixel; simp; omega
+
+/-- start samples of the pixels of one line that starts at `s` -/
+def lineStarts (k : Nat) : Nat → Nat → List Nat
+  | _, 0 => []
+  | s, P + 1 => s :: lineStarts k (s + k) P
+
+/-- start samples of all pixels of `n` lines, the first line starting at `s` -/
+def regStarts (k d P : Nat) : Nat → Nat → List Nat
+  | _, 0 => []
+  | s, n + 1 => lineStarts k s P ++ regStarts k d P (s + P * k + d) n
+
+def usedOf (k : Nat) (starts : List Nat) : List (Nat × Nat) := (starts.map (pixelUsed · k)).flatten
+
+theorem regLine_length (k : Nat) (hk : 1 ≤ k) (P : Nat) : (regLine k P).length = P * k := by
+  induction P with
+  | zero => simp [regLine]
+  | succ P ih => simp only [regLine, List.length_append, ih, regPixel_length k hk, Nat.succ_mul]; omega
+
+theorem usedFrom_line (k : Nat) (hk : 1 ≤ k) (P s : Nat) :
+    usedFrom s (regLine k P) = usedOf k (lineStarts k s P) := by
+  induction P generalizing s with
+  | zero => rfl
+  | succ P ih =>
+    simp only [regLine, lineStarts, usedOf, List.map_cons, List.flatten_cons]
+    rw [usedFrom_append, usedFrom_pixel, regPixel_length k hk, ih]
+    rfl
+
+theorem usedOf_append (k : Nat) (a b : List Nat) : usedOf k (a ++ b) = usedOf k a ++ usedOf k b := by
+  simp [usedOf]
+
+theorem usedFrom_lines (k d P : Nat) (hk : 1 ≤ k) (n s : Nat) :
+    usedFrom s (regLines k d P n) = usedOf k (regStarts k d P s n) := by
+  induction n generalizing s with
+  | zero => rfl
+  | succ n ih =>
+    simp only [regLines, regStarts]
+    rw [usedFrom_append, usedFrom_line k hk, usedFrom_append, usedFrom_zeros, List.nil_append,
+      regLine_length k hk, List.length_replicate, ih, usedOf_append]
+
+theorem usedIdx_regWave (lead k d P n : Nat) (hk : 1 ≤ k) :
+    usedIdx (regWave lead k d P n) = usedOf k (regStarts k d P lead n) := by
+  rw [usedIdx_eq]
+  unfold regWave
+  rw [usedFrom_append, usedFrom_zeros, List.nil_append, List.length_replicate, usedFrom_lines k d P hk]
+  simp
+
+/-! afterBoundary on a concatenation of pixels -/
+
+theorem afterBoundary_ones (i m : Nat) (y : Nat × Nat) (rest : List (Nat × Nat)) :
+    afterBoundary ((List.range m).map (fun j => (1, i + j)) ++ y :: rest) = afterBoundary (y :: rest) := by
+  induction m generalizing i with
+  | zero => rfl
+  | succ m ih =>
+    rw [List.range_succ_eq_map]
+    simp only [List.map_cons, List.map_map, List.cons_append]
+    have hm : (List.map ((fun j => ((1 : Nat), i + j)) ∘ Nat.succ) (List.range m))
+        = (List.range m).map (fun j => (1, (i + 1) + j)) := by
+      apply List.map_congr_left; intro a _; simp; omega
+    rw [hm]
+    cases m with
+    | zero => simp [afterBoundary]
+    | succ m' =>
+      rw [List.range_succ_eq_map]
+      simp only [List.map_cons, List.cons_append, afterBoundary]
+      simp only [show ((1 : Nat) = 2) = False by simp, if_false]
+      have := ih (i + 1)
+      rw [List.range_succ_eq_map] at this
+      simpa using this
+
+theorem afterBoundary_pixel (i k : Nat) (y : Nat × Nat) (rest : List (Nat × Nat)) :
+    afterBoundary (pixelUsed i k ++ y :: rest) = y.2 :: afterBoundary (y :: rest) := by
+  unfold pixelUsed
+  rw [List.append_assoc, List.singleton_append, afterBoundary_ones]
+  simp [afterBoundary]
+
+theorem afterBoundary_pixel_end (i k : Nat) : afterBoundary (pixelUsed i k) = [] := by
+  unfold pixelUsed
+  have := afterBoundary_ones i (k - 1) (2, i + (k - 1)) []
+  rw [this]; rfl
+
+theorem pixelUsed_head (i k : Nat) (_hk : 1 ≤ k) : ∃ c rest, pixelUsed i k = (c, i) :: rest := by
+  unfold pixelUsed
+  cases hk1 : k - 1 with
+  | zero => exact ⟨2, [], by simp⟩
+  | succ m => exact ⟨1, _, by rw [List.range_succ_eq_map]; simp; rfl⟩
+
+theorem afterBoundary_usedOf (k : Nat) (hk : 1 ≤ k) (s : Nat) (starts : List Nat) :
+    afterBoundary (usedOf k (s :: starts)) = starts := by
+  induction starts generalizing s with
+  | nil => simp [usedOf, afterBoundary_pixel_end]
+  | cons t ts ih =>
+    have hu : usedOf k (s :: t :: ts) = pixelUsed s k ++ usedOf k (t :: ts) := by simp [usedOf]
+    obtain ⟨c, rest, hc⟩ : ∃ c rest, usedOf k (t :: ts) = (c, t) :: rest := by
+      obtain ⟨c, r, h⟩ := pixelUsed_head t k hk
+      exact ⟨c, r ++ usedOf k ts, by simp [usedOf, h]⟩
+    rw [hu, hc, afterBoundary_pixel, ← hc, ih]
+
+theorem usedOf_getLast (k : Nat) (s : Nat) (starts : List Nat) :
+    ∃ j, (usedOf k (s :: starts)).getLast? = some (2, j) := by
+  induction starts generalizing s with
+  | nil => exact ⟨s + (k - 1), by simp [usedOf, pixelUsed]⟩
+  | cons t ts ih =>
+    obtain ⟨j, hj⟩ := ih t
+    refine ⟨j, ?_⟩
+    have hu : usedOf k (s :: t :: ts) = pixelUsed s k ++ usedOf k (t :: ts) := by simp [usedOf]
+    rw [hu, List.getLast?_append, hj]
+    rfl
+
+theorem pixelStarts_regular (iw : List Nat) (k : Nat) (hk : 1 ≤ k) (s : Nat) (starts : List Nat)
+    (h : usedIdx iw = usedOf k (s :: starts)) : pixelStarts iw = starts := by
+  unfold pixelStarts
+  simp only [h]
+  obtain ⟨j, hj⟩ := usedOf_getLast k s starts
+  rw [hj, afterBoundary_usedOf k hk]
+  rfl
+
+theorem lineStarts_length (k s m : Nat) : (lineStarts k s m).length = m := by
+  induction m generalizing s with
+  | zero => rfl
+  | succ m ih => simp [lineStarts, ih]
+
+theorem diffsI_line (k a m : Nat) : diffsI (lineStarts k a (m + 1)) = List.replicate m (k : Int) := by
+  induction m generalizing a with
+  | zero => rfl
+  | succ m ih =>
+    have := ih (a + k)
+    simp only [lineStarts] at this ⊢
+    simp only [diffsI, this, List.replicate_succ]
+    congr 1
+    omega
+
+theorem diffsI_line_append (k a m b : Nat) (r : List Nat) :
+    diffsI (lineStarts k a (m + 1) ++ b :: r)
+      = List.replicate m (k : Int) ++ ((b : Int) - ((a + m * k : Nat) : Int)) :: diffsI (b :: r) := by
+  induction m generalizing a with
+  | zero => simp [lineStarts, diffsI]
+  | succ m ih =>
+    have := ih (a + k)
+    simp only [lineStarts, List.cons_append] at this ⊢
+    simp only [diffsI, this, List.replicate_succ, List.cons_append]
+    congr 2
+    · omega
+    · congr 2
+      rw [Nat.succ_mul]; omega
+
+theorem regStarts_head (k d P s n : Nat) :
+    ∃ r, regStarts k d (P + 1) s (n + 1) = s :: r := by
+  simp [regStarts, lineStarts]
+
+theorem diffsI_reg_mem (k d P : Nat) (n s : Nat) :
+    ∀ x ∈ diffsI (regStarts k d (P + 1) s n), x = (k : Int) ∨ x = (k : Int) + d := by
+  induction n generalizing s with
+  | zero => intro x hx; simp [regStarts, diffsI] at hx
+  | succ n ih =>
+    intro x hx
+    cases n with
+    | zero =>
+      simp only [regStarts, List.append_nil] at hx
+      rw [diffsI_line] at hx
+      left; exact (List.mem_replicate.mp hx).2
+    | succ n =>
+      obtain ⟨r, hr⟩ := regStarts_head k d P (s + (P + 1) * k + d) n
+      have ih' := ih (s + (P + 1) * k + d)
+      rw [regStarts, hr, diffsI_line_append] at hx
+      rw [hr] at ih'
+      rcases List.mem_append.mp hx with h | h
+      · left; exact (List.mem_replicate.mp h).2
+      · rcases List.mem_cons.mp h with h | h
+        · right; rw [h, Nat.succ_mul]; omega
+        · exact ih' x h
+
+theorem foldl_max_eq (l : List Int) (init M : Int) (hinit : init ≤ M) (hall : ∀ x ∈ l, x ≤ M)
+    (hmem : init = M ∨ M ∈ l) : l.foldl max init = M := by
+  induction l generalizing init with
+  | nil => rcases hmem with h | h; exact h; simp at h
+  | cons a l ih =>
+    simp only [List.foldl_cons]
+    have ha := hall a (by simp)
+    apply ih
+    · omega
+    · exact fun x hx => hall x (by simp [hx])
+    · rcases hmem with h | h
+      · left; omega
+      · rcases List.mem_cons.mp h with h | h
+        · left; omega
+        · right; exact h
+
+theorem foldl_min_eq (l : List Int) (init m : Int) (hinit : m ≤ init) (hall : ∀ x ∈ l, m ≤ x)
+    (hmem : init = m ∨ m ∈ l) : l.foldl min init = m := by
+  induction l generalizing init with
+  | nil => rcases hmem with h | h; exact h; simp at h
+  | cons a l ih =>
+    simp only [List.foldl_cons]
+    have ha := hall a (by simp)
+    apply ih
+    · omega
+    · exact fun x hx => hall x (by simp [hx])
+    · rcases hmem with h | h
+      · left; omega
+      · rcases List.mem_cons.mp h with h | h
+        · left; omega
+        · right; exact h
+
+theorem findIdx_replicate (p : Int → Bool) (m : Nat) (x y : Int) (r : List Int) (hx : p x = false)
+    (hy : p y = true) : (List.replicate m x ++ y :: r).findIdx? p = some m := by
+  induction m with
+  | zero => simp [List.findIdx?_cons, hy]
+  | succ m ih => simp [List.replicate_succ, List.findIdx?_cons, hx, ih]
+
+/-- the threshold logic of `seek_timestamp_next_line` on a list of pixel starts whose distances are `m` short
+    ones, then a long one, then short and long ones with at least one short one -/
+theorem seek_threshold (iw : List Nat) (ps : List Nat) (hps : pixelStarts iw = ps) (m : Nat) (k d : Int)
+    (hd : 1 ≤ d) (R : List Int) (hds : diffsI ps = List.replicate m k ++ (k + d) :: R)
+    (hR : ∀ x ∈ R, x = k ∨ x = k + d) (hk : m ≠ 0 ∨ k ∈ R) :
+    seekNextLine iw = ps[m + 1]? := by
+  unfold seekNextLine
+  simp only [hps, hds]
+  have hne : (List.replicate m k ++ (k + d) :: R).isEmpty = false := by
+    cases m <;> simp [List.replicate_succ]
+  rw [hne]
+  simp only [Bool.false_eq_true, if_false]
+  have hall : ∀ x ∈ List.replicate m k ++ (k + d) :: R, k ≤ x ∧ x ≤ k + d := by
+    intro x hx
+    rcases List.mem_append.mp hx with h | h
+    · have := (List.mem_replicate.mp h).2; omega
+    · rcases List.mem_cons.mp h with h | h
+      · omega
+      · rcases hR x h with h | h <;> omega
+  have hhead : ∀ x, (List.replicate m k ++ (k + d) :: R).headD 0 = x → k ≤ x ∧ x ≤ k + d := by
+    intro x hx
+    apply hall
+    cases m with
+    | zero => simp at hx; simp [← hx]
+    | succ m => simp [List.replicate_succ] at hx; simp [← hx, List.replicate_succ]
+  have hmax : (List.replicate m k ++ (k + d) :: R).foldl max ((List.replicate m k ++ (k + d) :: R).headD 0) = k + d :=
+    foldl_max_eq _ _ _ (hhead _ rfl).2 (fun x hx => (hall x hx).2) (Or.inr (by simp))
+  have hmin : (List.replicate m k ++ (k + d) :: R).foldl min ((List.replicate m k ++ (k + d) :: R).headD 0) = k := by
+    apply foldl_min_eq _ _ _ (hhead _ rfl).1 (fun x hx => (hall x hx).1)
+    rcases hk with h | h
+    · left
+      obtain ⟨m', rfl⟩ : ∃ m', m = m' + 1 := ⟨m - 1, by omega⟩
+      simp [List.replicate_succ]
+    · right; simp [h]
+  rw [hmax, hmin]
+  rw [findIdx_replicate _ m k (k + d) R (by simp; omega) (by simp; omega)]
+  rfl
+
+theorem seek_regular (lead k d P n : Nat) (hk : 1 ≤ k) (hd : 1 ≤ d) :
+    seekNextLine (regWave lead k d (P + 2) (n + 2)) = some (lead + (P + 2) * k + d) := by
+  let s' := lead + (P + 2) * k + d
+  obtain ⟨r, hr⟩ := regStarts_head k d (P + 1) s' n
+  have hstarts : regStarts k d (P + 2) lead (n + 2)
+      = lead :: (lineStarts k (lead + k) (P + 1) ++ s' :: r) := by
+    rw [regStarts, hr]; rfl
+  have hps := pixelStarts_regular (regWave lead k d (P + 2) (n + 2)) k hk lead _
+    (by rw [usedIdx_regWave lead k d (P + 2) (n + 2) hk, hstarts])
+  have hmem := diffsI_reg_mem k d (P + 1) (n + 1) s'
+  rw [hr] at hmem
+  -- the second line begins with two pixel starts `k` apart
+  have hk_in : (k : Int) ∈ diffsI (s' :: r) := by
+    have : ∃ r', r = (s' + k) :: r' := by
+      have h2 : regStarts k d (P + 2) s' (n + 1) = s' :: (s' + k) :: (lineStarts k (s' + k + k) P ++
+          regStarts k d (P + 2) (s' + (P + 2) * k + d) n) := by
+        simp [regStarts, lineStarts]
+      rw [h2] at hr
+      exact ⟨_, (List.cons.inj hr).2.symm⟩
+    obtain ⟨r', rfl⟩ := this
+    simp only [diffsI, List.mem_cons]
+    left; omega
+  have hth := seek_threshold _ _ hps P (k : Int) (d : Int) (by omega) (diffsI (s' :: r))
+    (by
+      rw [diffsI_line_append]
+      congr 2
+      show ((s' : Nat) : Int) - _ = _
+      simp only [s', Nat.succ_mul]
+      omega)
+    hmem (Or.inr hk_in)
+  rw [hth, List.getElem?_append_right (by rw [lineStarts_length]; omega), lineStarts_length]
+  simp [s']
+
+theorem carry_zip_zeros (d : Nat) (D : List Int) (acc : Int) :
+    carry acc (D.zip (List.replicate d 0)) = acc := by
+  induction d generalizing D with
+  | zero => simp [carry]
+  | succ d ih =>
+    cases D with
+    | nil => simp [carry]
+    | cons x D => simp [List.replicate_succ, carry, ih]
+
+theorem carry_zip_clean (A1 : List Nat) (d : Nat) (D : List Int) (acc : Int)
+    (h : D.length = (A1 ++ 2 :: List.replicate d 0).length) :
+    carry acc (D.zip (A1 ++ 2 :: List.replicate d 0)) = 0 := by
+  induction A1 generalizing D acc with
+  | nil =>
+    cases D with
+    | nil => simp at h
+    | cons x D => simp [carry, carry_zip_zeros]
+  | cons c A1 ih =>
+    cases D with
+    | nil => simp at h
+    | cons x D =>
+      have h' : D.length = (A1 ++ 2 :: List.replicate d 0).length := by simpa using h
+      simp only [List.cons_append, List.zip_cons_cons, carry]
+      split
+      · exact ih D acc h'
+      · split
+        · exact ih D 0 h'
+        · exact ih D _ h'
+
+theorem regLine_ends (k m : Nat) : ∃ init, regLine k (m + 1) = init ++ [2] := by
+  induction m with
+  | zero => exact ⟨List.replicate (k - 1) 1, by simp [regLine, regPixel]⟩
+  | succ m ih =>
+    obtain ⟨init, hi⟩ := ih
+    exact ⟨regPixel k ++ init, by rw [regLine, hi, List.append_assoc]⟩
+
+theorem regLine_count (k m : Nat) : (regLine k m).count 2 = m := by
+  induction m with
+  | zero => rfl
+  | succ m ih =>
+    rw [regLine, List.count_append, ih]
+    unfold regPixel
+    rw [List.count_append, List.count_replicate]
+    simp
+    omega
+
+/-- the first line of a regular wave with its lead-in and the dead time behind it, and the rest -/
+theorem regWave_split (lead k d P n : Nat) :
+    regWave lead k d P (n + 1) =
+      (List.replicate lead 0 ++ regLine k P ++ List.replicate d 0) ++ regLines k d P n := by
+  simp [regWave, regLines, List.append_assoc]
+
+theorem pixels_after_first_line_aux (lead k d P n : Nat) (hk : 1 ≤ k) (data : List Int)
+    (h : data.length = (regWave lead k d (P + 1) (n + 1)).length) :
+    pixelsSpec (data.drop (lead + (P + 1) * k + d)) ((regWave lead k d (P + 1) (n + 1)).drop (lead + (P + 1) * k + d))
+      = (pixelsSpec data (regWave lead k d (P + 1) (n + 1))).drop (P + 1) := by
+  have hlenA : (List.replicate lead 0 ++ regLine k (P + 1) ++ List.replicate d 0).length = lead + (P + 1) * k + d := by
+    simp [regLine_length k hk]; omega
+  rw [regWave_split] at h ⊢
+  generalize hA : List.replicate lead 0 ++ regLine k (P + 1) ++ List.replicate d 0 = A at hlenA h
+  generalize regLines k d (P + 1) n = B at h
+  rw [← hlenA, List.drop_left' rfl]
+  unfold pixelsSpec
+  have hz : data.zip (A ++ B) = (data.take A.length).zip A ++ (data.drop A.length).zip B := by
+    conv => lhs; rw [← List.take_append_drop A.length data]
+    rw [List.zip_append]
+    simp at h ⊢; omega
+  rw [hz, spec_append]
+  have hDl : (data.take A.length).length = A.length := by simp at h ⊢; omega
+  have hcarry : carry 0 ((data.take A.length).zip A) = 0 := by
+    obtain ⟨init, hi⟩ := regLine_ends k P
+    have hA' : A = (List.replicate lead 0 ++ init) ++ 2 :: List.replicate d 0 := by
+      rw [← hA, hi]; simp [List.append_assoc]
+    rw [hA'] at hDl ⊢
+    exact carry_zip_clean _ d _ 0 hDl
+  have hcount : (pixelsSpecAux 0 ((data.take A.length).zip A)).length = P + 1 := by
+    rw [spec_length, List.map_snd_zip (by omega), ← hA]
+    simp [List.count_append, regLine_count, List.count_replicate]
+  rw [hcarry, ← hcount, List.drop_left' rfl]
+
+theorem not_late_of_rel_nonneg (n off : Nat) (s : Stream) (h : 0 ≤ s.lead + (off : Int)) :
+    startsLate n off s = false := by
+  unfold startsLate chanSlice
+  simp [h]
+
+theorem first_line_repair_lemma (Pp lead k d P n : Nat) (hk : 1 ≤ k) (hd : 1 ≤ d) (ss : Streams) (c : Nat)
+    (hlate : startsLate (regWave lead k d (P + 2) (n + 2)).length 0 (streamOf ss c) = true)
+    (hin : ∀ c', 0 ≤ (streamOf ss c').lead + ((lead + (P + 2) * k + d : Nat) : Int)) :
+    (queryColour (.kymo Pp) (regWave lead k d (P + 2) (n + 2)) (streamOf ss c) c ObjState.fresh).1
+      = ⟨lead + (P + 2) * k + d, 1, []⟩ ∧
+    Settled (.kymo Pp) (regWave lead k d (P + 2) (n + 2)) ss ⟨lead + (P + 2) * k + d, 1, []⟩ := by
+  constructor
+  · have hpa : photonAccess (.kymo Pp) (regWave lead k d (P + 2) (n + 2)) (streamOf ss c) ObjState.fresh
+        = .ok ⟨lead + (P + 2) * k + d, 1, []⟩ := by
+      unfold photonAccess
+      simp only [ObjState.fresh, hlate, if_true, isScan, List.drop_zero, Bool.false_eq_true, if_false]
+      rw [seek_regular lead k d P n hk hd]
+      simp
+    unfold queryColour
+    simp only [ObjState.fresh, lookupImage, List.find?_nil, Option.map_none]
+    simp only [ObjState.fresh] at hpa
+    rw [hpa]
+    simp only
+    split
+    · rfl
+    · simp
+  · refine ⟨?_, fun c' => not_late_of_rel_nonneg _ _ _ (hin c')⟩
+    intro c' im hl
+    simp [lookupImage] at hl
+
+theorem regLines_count_pos (k d P n : Nat) : (regLines k d (P + 1) (n + 1)).count 2 ≠ 0 := by
+  rw [regLines, List.count_append, regLine_count]
+  omega
+
+
+/-! ### deepening round D: index form of the sample-to-pixel assignment -/
+
+theorem sum_map_const_zero' {α} (l : List α) (f : α → Int) (h : ∀ a ∈ l, f a = 0) : (l.map f).sum = 0 := by
+  induction l with
+  | nil => rfl
+  | cons a l ih =>
+    simp only [List.map_cons, List.sum_cons]
+    rw [h a (by simp), ih (fun b hb => h b (by simp [hb]))]
+    rfl
+
+theorem assignedRaw_cons (x : Int) (xs : List Int) (c : Nat) (cs : List Nat) (j : Nat) :
+    assignedRaw (x :: xs) (c :: cs) j =
+      (if c ≠ 0 ∧ j = 0 then x else 0) +
+      (if c = 2 then (if j = 0 then 0 else assignedRaw xs cs (j - 1)) else assignedRaw xs cs j) := by
+  unfold assignedRaw
+  rw [List.length_cons, List.range_succ_eq_map, List.map_cons, List.sum_cons, List.map_map]
+  congr 1
+  · simp [pixelOfSample, eq_comm]
+  · by_cases h2 : c = 2
+    · subst h2
+      simp only [if_true]
+      by_cases hj : j = 0
+      · subst hj
+        simp only [if_true]
+        apply sum_map_const_zero' 
+        intro i _
+        simp [pixelOfSample]
+      · rw [if_neg hj]
+        congr 1
+        apply List.map_congr_left
+        intro i _
+        simp only [Function.comp, List.getD_cons_succ, pixelOfSample, List.take_succ_cons, List.count_cons,
+          beq_self_eq_true, if_true]
+        have : ((cs.take i).count 2 + 1 = j) ↔ ((cs.take i).count 2 = j - 1) := by omega
+        simp only [this]
+        rfl
+    · rw [if_neg h2]
+      congr 1
+      apply List.map_congr_left
+      intro i _
+      simp only [Function.comp, List.getD_cons_succ, pixelOfSample, List.take_succ_cons, List.count_cons]
+      have : (c == 2) = false := by simp [h2]
+      simp [this]
+
+theorem spec_getD_assigned (iw : List Nat) : ∀ (data : List Int) (acc : Int) (j : Nat), data.length = iw.length →
+    (pixelsSpecAux acc (data.zip iw)).getD j 0
+      = (if j = 0 ∧ 0 < iw.count 2 then acc else 0) + assignedSum data iw j := by
+  induction iw with
+  | nil =>
+    intro data acc j h
+    simp [pixelsSpecAux, assignedSum]
+  | cons c cs ih =>
+    intro data acc j h
+    cases data with
+    | nil => simp at h
+    | cons x xs =>
+      have h' : xs.length = cs.length := by simpa using h
+      unfold assignedSum
+      rw [assignedRaw_cons, List.zip_cons_cons, pixelsSpecAux, List.count_cons]
+      by_cases h0 : c = 0
+      · subst h0
+        simp only [if_true]
+        rw [ih xs acc j h']
+        unfold assignedSum
+        simp
+      · simp only [h0, if_false]
+        by_cases h2 : c = 2
+        · subst h2
+          simp only [if_true, beq_self_eq_true]
+          cases j with
+          | zero => simp
+          | succ j' =>
+            rw [List.getD_cons_succ, ih xs 0 j' h']
+            unfold assignedSum
+            simp
+        · simp only [h2, if_false]
+          rw [ih xs (acc + x) j h']
+          unfold assignedSum
+          have : (c == 2) = false := by simp [h2]
+          simp only [this, Bool.false_eq_true, if_false, Nat.add_zero]
+          by_cases hj : j = 0
+          · subst hj
+            by_cases hc : 0 < cs.count 2
+            · simp only [hc, and_self, if_true, h0, ne_eq, not_false_eq_true]; omega
+            · simp [hc]
+          · simp [hj]
+
 end Verif.C02
